@@ -23,13 +23,16 @@ EXTENDS Integers, FiniteSets, TLC
 
 CONSTANTS CPos, CVal, Models, Means, Poss, Seeds,
           ClearOnSetCondition,  \* TRUE: set_condition deletes the stored fields (code after the fix)
-          ReuseNeedsOwnResult   \* TRUE: CondSRF reuses its raw kriging field only together with the very
-                                \* kriging variance array it stored itself (code after the fix); FALSE: the
-                                \* mere presence of a kriging variance in the Krige object suffices
+          ReuseToken            \* what CondSRF requires before it reuses its cached kriging results:
+                                \* "none": the mere presence of both stored fields (original code)
+                                \* "kvar": the stored kriging variance is the array of its last own evaluation
+                                \* "both": stored raw kriging field AND variance are the arrays of its last
+                                \*         own evaluation (code after the repairs)
 
 VARIABLES cfg, pos, seed, dirty, op,       \* ideal
           mat, kvar, rawk, res,           \* code-shaped: matrix provenance, stored fields, last result tag
-          own                             \* code-shaped: the stored kriging variance was produced by a CondSRF call
+          own                             \* code-shaped: [r, k] - the stored raw kriging field / kriging variance
+                                          \* is the array produced by the last own kriging evaluation
 
 ivars == <<cfg, pos, seed, dirty>>
 vars  == <<cfg, pos, seed, dirty, op, mat, kvar, rawk, res, own>>
@@ -48,11 +51,14 @@ FreshTag(c, p) == Tag(c, [cpos |-> c.cpos, model |-> c.model], p)
 Init ==
   /\ cfg \in Cfg /\ pos = Keep /\ seed \in Seeds /\ dirty = FALSE
   /\ mat = [cpos |-> cfg.cpos, model |-> cfg.model]
-  /\ kvar = NoTag /\ rawk = NoTag /\ res = NoTag /\ own = FALSE
+  /\ kvar = NoTag /\ rawk = NoTag /\ res = NoTag /\ own = [r |-> FALSE, k |-> FALSE]
   /\ op = [name |-> "Init"]
 
-(* cond_srf(pos = p or None, seed = s or keep) *)
-Call(p, s) ==
+(* cond_srf(pos = p or None, seed = s or keep, store = st, krige_store = kst)
+   st / kst: TRUE = store under the default names, FALSE = do not store *)
+Token(o) == CASE ReuseToken = "none" -> TRUE [] ReuseToken = "kvar" -> o.k [] OTHER -> o.r /\ o.k
+
+Call(p, s, st, kst) ==
   /\ (p = Keep => pos # Keep)
   /\ pos' = IF p = Keep THEN pos ELSE p
   /\ seed' = IF s = Keep THEN seed ELSE s
@@ -60,15 +66,16 @@ Call(p, s) ==
   /\ LET deleted == p # Keep /\ p # pos            \* set_pos deletes every stored field
          k0 == IF deleted THEN NoTag ELSE kvar
          r0 == IF deleted THEN NoTag ELSE rawk
-         reuse == ~deleted /\ r0 # NoTag /\ k0 # NoTag /\ (ReuseNeedsOwnResult => own)
-         t == IF reuse THEN r0 ELSE Tag(cfg, mat, pos')
-     IN /\ res' = [rawk |-> t, kvar |-> IF reuse THEN k0 ELSE t]
-        /\ rawk' = t
-        /\ kvar' = IF reuse THEN k0 ELSE t
-        /\ own' = TRUE
-  /\ op' = [name |-> "Call", p |-> p, s |-> s, compare |-> ~dirty,
-            cfg |-> cfg, pos |-> pos', seed |-> seed',
-            reuse |-> ((p = Keep \/ p = pos) /\ rawk # NoTag /\ kvar # NoTag /\ (ReuseNeedsOwnResult => own))]
+         reuse == ~deleted /\ r0 # NoTag /\ k0 # NoTag /\ Token(own)
+         t == Tag(cfg, mat, pos')
+     IN /\ res' = IF reuse THEN [rawk |-> r0, kvar |-> k0] ELSE [rawk |-> t, kvar |-> t]
+        \* a fresh evaluation stores its results only where storing was asked for; what is not
+        \* stored leaves the previously stored array (if any) in place
+        /\ rawk' = IF reuse THEN r0 ELSE IF st THEN t ELSE r0
+        /\ kvar' = IF reuse THEN k0 ELSE IF kst THEN t ELSE k0
+        /\ own'  = IF reuse THEN own ELSE [r |-> st, k |-> kst]
+        /\ op' = [name |-> "Call", p |-> p, s |-> s, st |-> st, kst |-> kst, compare |-> ~dirty,
+                  cfg |-> cfg, pos |-> pos', seed |-> seed', reuse |-> reuse]
 
 (* cond_srf.set_pos(p) *)
 SetPos(p) ==
@@ -113,7 +120,7 @@ ChangeMean(v) ==
 KrigeCall(p) ==
   /\ pos' = p
   /\ kvar' = Tag(cfg, mat, p)
-  /\ own' = FALSE
+  /\ own' = [own EXCEPT !.k = FALSE]
   /\ op' = [name |-> "KrigeCall", p |-> p]
   /\ UNCHANGED <<cfg, seed, dirty, mat, res, rawk>>
 
@@ -124,7 +131,7 @@ DeleteFields ==
   /\ UNCHANGED <<cfg, pos, seed, dirty, mat, kvar, res, own>>
 
 Next ==
-  \/ \E p \in Poss \cup {Keep}, s \in Seeds \cup {Keep} : Call(p, s)
+  \/ \E p \in Poss \cup {Keep}, s \in Seeds \cup {Keep}, st \in BOOLEAN, kst \in BOOLEAN : Call(p, s, st, kst)
   \/ \E p \in Poss : SetPos(p)
   \/ \E cp \in CPos, cv \in CVal, form \in {"both", "val", "pos", "none"} : SetCondition(cp, cv, form)
   \/ \E m \in Models, how \in {"inplace", "assign"} : ChangeModel(m, how)
